@@ -176,10 +176,18 @@ static long spec_skip_value(const uint8_t *p, size_t n, int t, int in_container,
 #define CQV_LIST_EXACT_CHECK __CPROVER_assert(dec->status != CARQUET_OK || !SPEC_IS_FIXED(elem_type) || \
                             dec->reader.pos == cqv_p1 + ((size_t)count << SPEC_ELEM_SH(elem_type)), \
                             "skip of list/set<fixed-width T> consumes exactly count * width element bytes (bool elements: 1 byte each)")
+/* map<K,V> with both K and V fixed width: header + count * (width K + width V) */
+#define CQV_MAP_EXACT_INV (dec->status != CARQUET_OK || !SPEC_IS_FIXED(key_type) || !SPEC_IS_FIXED(value_type) || \
+                           dec->reader.pos == cqv_p2 + ((size_t)i << SPEC_ELEM_SH(key_type)) + ((size_t)i << SPEC_ELEM_SH(value_type)))
+#define CQV_MAP_EXACT_CHECK __CPROVER_assert(dec->status != CARQUET_OK || !SPEC_IS_FIXED(key_type) || !SPEC_IS_FIXED(value_type) || \
+                           dec->reader.pos == cqv_p2 + ((size_t)count << SPEC_ELEM_SH(key_type)) + ((size_t)count << SPEC_ELEM_SH(value_type)), \
+                           "skip of map<fixed-width K, fixed-width V> consumes exactly count * (width K + width V) entry bytes (bool keys/values: 1 byte each)")
 #else
 #define TD_SKIP_EXACT(dec, type)
 #define CQV_LIST_EXACT_INV 1
 #define CQV_LIST_EXACT_CHECK ((void)0)
+#define CQV_MAP_EXACT_INV 1
+#define CQV_MAP_EXACT_CHECK ((void)0)
 #endif
 /* contract of thrift_skip, shared verbatim by the function and its recursion twin thrift_skip__rec:
  * safe on any decoder state; invariant kept; cursor monotone; errors sticky; balanced nesting on success */
